@@ -12,9 +12,9 @@ from lib.vlib import Infra
 SPEC = os.path.join(vlib.SPECS, "ledger")
 SIZE = {"quick": (6, 8), "thorough": (400, 16)}   # histories, valid blocks per history
 
-COIN_MUTS = {"coins-created", "coins-destroyed", "zero-coin-output"}
+COIN_MUTS = {"coins-created", "coins-destroyed", "zero-coin-output", "legacy-overflow-input-coins-destroyed"}
 SPEND_MUTS = {"double-spend-in-block", "replayed-spend", "unknown-input", "dup-input"}
-HOURS_MUTS = {"hours-created", "hours-plus-one", "hours-wrap", "legacy-overflow-input-hours-1"}
+HOURS_MUTS = {"hours-created", "hours-plus-one", "hours-wrap", "legacy-overflow-input-hours-1", "spend-of-an-input-whose-coin-seconds-overflow"}
 
 
 def owner(mut, reason):
